@@ -126,6 +126,38 @@ def decorate(rng, text):
     return text
 
 
+def auto_rules(rng):
+    """automated transactions whose lines carry notes, `Tag: value` and `:tag:` metadata of every length (1-70 bytes) - under
+    the rule's header (applied to the matching posting) and under its lines (applied to the posting made) - and whose
+    accounts may be templates (`$account`)"""
+    words = ['monthly', 'food', 'budget', 'envelope', 'rent', 'x', 'carry-over', 'q3', 'shared', 'with', 'the', 'household']
+
+    def meta():
+        k = rng.random()
+        body = ' '.join(rng.choice(words) for _ in range(rng.randrange(1, 9)))[:rng.randrange(1, 70)].strip() or 'x'
+        if k < 0.5:
+            return '    ; %s: %s' % (rng.choice(['Envelope', 'T0', 'Plan', 'Who']), body)
+        if k < 0.7:
+            return '    ; :%s:' % ':'.join(rng.sample(['ta', 'tb', 'long-tag-name-here', 'q'], rng.randrange(1, 4)))
+        return '    ; ' + body
+    out = []
+    for _ in range(rng.randrange(1, 4)):
+        pat = rng.choice(['/^Expenses/', '/Food/', '/^Assets:Bank/', 'Income'])
+        ls = ['= ' + pat]
+        for _ in range(rng.randrange(0, 3)):
+            ls.append(meta())
+        for acct, m in [(rng.choice(['[Budget:$account]', '[Budget:Spent]', '(Track:$account)']), '-1'), ('[Budget:Pool]', '1')][:rng.choice([1, 2, 2])]:
+            if acct.startswith('('):
+                m = rng.choice(['1', '0.5', '-1'])
+            ls.append('    %s    %s' % (acct, m))
+            for _ in range(rng.randrange(0, 3)):
+                ls.append(meta())
+        if '[Budget:Pool]' not in ''.join(ls) and any(l.strip().startswith('[') for l in ls):
+            ls.append('    [Budget:Pool]    1')
+        out.append('\n'.join(ls))
+    return '\n\n'.join(out) + '\n\n'
+
+
 def mutate(rng, text):
     b = bytearray(text.encode('utf-8'))
     for _ in range(rng.randrange(1, 6)):
@@ -250,6 +282,17 @@ def run(ctx, n_override=None):
         cmd = list(rng.choice([['xml'], ['xml', '--aux-date'], ['csv'], ['emacs'], ['print'], ['reg', '--aux-date'], ['xml', '--lots']]))
         first = run_case(ctx, res, 'fields', text, cmd, nlay)
         res.count('kind:fields')
+        if first and (first[1] or first[2]):
+            res.nontrivial.add(hashlib.sha256(text.encode('utf-8', 'surrogateescape') + ' '.join(cmd).encode()).hexdigest())
+    # directed: automated transactions with metadata of every length on their header and lines, template accounts; the
+    # reports that show notes and tags
+    for k_ in range(ctx.scale(14, 80)):
+        text = auto_rules(rng) + X.render_journal([X.gen_balanced(rng, with_costs=False) for _ in range(rng.randrange(2, 7))])
+        cmd = list(rng.choice([['xml'], ['print'], ['csv'], ['emacs'], ['reg', 'Budget', 'Track'], ['bal', '--pivot', 'Envelope'], ['bal', '%ta'],
+                               ['reg', '--format', '%(date) %(account) %(amount) [%(note)] <%(tag("Envelope"))> <%(tag("T0"))>\n'],
+                               ['reg', '%Envelope', '--format', '%(account)|%(note)\n'], ['tags'], ['tags', '--values']]))
+        first = run_case(ctx, res, 'auto-notes', text, cmd, nlay)
+        res.count('kind:auto-notes')
         if first and (first[1] or first[2]):
             res.nontrivial.add(hashlib.sha256(text.encode('utf-8', 'surrogateescape') + ' '.join(cmd).encode()).hexdigest())
     # value expressions through the REPL under the same layouts
